@@ -395,12 +395,12 @@ func meshCases(c *Ctx, im *Impl, cf *CaseFile) {
 		}
 		for k, sz := range pl.sizes {
 			label := fmt.Sprintf("%s/%s #%d %d+%d bytes", pl.t.name, pl.p.name, k, sz[0], sz[1])
-			ctx, cancel := context.WithTimeout(context.Background(), 30*time.Second)
+			ctx, cancel := context.WithTimeout(context.Background(), 12*time.Second)
 			conn, err := w.nodes[0].DialContext(ctx, w.names[pl.t.n-1], "stream", ct)
 			cancel()
 			if err != nil {
 				im.Violate(fmt.Sprintf("%s: dial failed: %v", label, err), "stream-dial-failed", label)
-				continue
+				break // the other transfers of this world would only wait for the same timeout
 			}
 			var ac net.Conn
 			select {
@@ -520,9 +520,9 @@ func relayCases(c *Ctx, im *Impl, cf *CaseFile) {
 		var sc net.Conn
 		select {
 		case sc = <-srvConns:
-		case <-time.After(15 * time.Second):
+		case <-time.After(20 * time.Second):
 			im.Violate(label+": the connection did not reach the TCP server", "relay-no-connection", label)
-			continue
+			return
 		}
 		// BridgeConns closes the whole far connection when one direction ends, so only one
 		// direction carries data per case and the other ends by that close
